@@ -126,6 +126,10 @@ class CEval:
             b = strip(t["inner"][0])
             if b.get("kind") == "DeclRefExpr":
                 return ("arr", b["referencedDecl"]["name"], self.ex(t["inner"][1], env))
+            if b.get("kind") == "ArraySubscriptExpr":
+                bb = strip(b["inner"][0])
+                if bb.get("kind") == "DeclRefExpr":
+                    return ("arr", bb["referencedDecl"]["name"], ('tuple', (self.ex(b["inner"][1], env), self.ex(t["inner"][1], env))))
         if k == "UnaryOperator" and t.get("opcode") == "*":
             b = strip(t["inner"][0])
             if b.get("kind") == "DeclRefExpr":
@@ -275,6 +279,8 @@ def stores_to(node, arr):
             t = strip(n["inner"][0])
             if t.get("kind") == "ArraySubscriptExpr":
                 b = strip(t["inner"][0])
+                while b.get("kind") == "ArraySubscriptExpr":
+                    b = strip(b["inner"][0])
                 return b.get("kind") == "DeclRefExpr" and b["referencedDecl"]["name"] == arr
             if t.get("kind") == "UnaryOperator" and t.get("opcode") == "*":
                 b = strip(t["inner"][0])
